@@ -10,6 +10,8 @@
                          name.len() - source_name.len() coincides with a label boundary of the name (typestate over the label walk)
   C07.f comparison window (E4) the bytes compared for a label are exactly the label_len bytes behind its length byte, against the source
                          bytes at the same distance from the end of the source (per-byte closure form analysed for a generic index, or slices)
+  C07.g byte predicate   every comparison between name and source is the standard eq_ignore_ascii_case or a closure whose result, evaluated for
+                         all 65 536 byte pairs (E3), is ASCII case-insensitive equality
   (argument validation on a fresh vector and commit-after-reparse are decided under C10.a)
 
 Not decided: which names match (label-aligned, case-insensitive comparison of run-time bytes), identity-rename equality.
@@ -185,7 +187,7 @@ def window_rule(ctx, facts, cfg):
     if f is None:
         ctx.missing(rid, RR)
         return
-    e4 = E4(facts, probes=[('eq_ignore_ascii_case', None)], track_loads=True)
+    e4 = E4(facts, probes=[('eq_ignore_ascii_case', None), ('<load>', RR)], track_loads=True)
     try:
         S = e4.summarize(RR)
     except Exception as e:  # noqa
@@ -197,17 +199,34 @@ def window_rule(ctx, facts, cfg):
     ln_name = S.init.get(name_base + '#len')
     ln_src = S.init.get(src_base + '#len')
     n = 0
-    for p in e4.probes():
-        if p.get('kind') != 'call' or len(p['args']) < 2:
-            continue
-        C = p['C']
-        sides = []
-        for a in p['args'][:2]:
-            if isinstance(a, Ref) and a.loc in e4.an.cell_index:
-                b, pos = e4.an.cell_index[a.loc]
-                sides.append((b, pos, _lin(1)))
-            elif isinstance(a, Slice):
-                sides.append((a.base, a.off, a.ln))
+    all_probes = e4.probes()
+    have_std = any(p.get('kind') == 'call' for p in all_probes)
+    # a hand-written comparison has no eq_ignore_ascii_case call: pair up the byte loads the comparison closure makes from the two buffers
+    synth = []
+    if not have_std:
+        loads = [p for p in all_probes if p.get('kind') == 'load' and '{closure' in p['fn']]
+        for pl in [p for p in loads if p['base'] == name_base]:
+            for pr in [p for p in loads if p['base'] == src_base and p['fn'] == pl['fn']]:
+                q = dict(pr)
+                q['kind'] = 'pair'
+                q['sides'] = [(name_base, pl['pos'], _lin(1)), (src_base, pr['pos'], _lin(1))]
+                synth.append(q)
+                break
+    for p in all_probes + synth:
+        if p.get('kind') == 'pair':
+            sides = p['sides']
+            C = p['C']
+        else:
+            if p.get('kind') != 'call' or len(p['args']) < 2:
+                continue
+            C = p['C']
+            sides = []
+            for a in p['args'][:2]:
+                if isinstance(a, Ref) and a.loc in e4.an.cell_index:
+                    b, pos = e4.an.cell_index[a.loc]
+                    sides.append((b, pos, _lin(1)))
+                elif isinstance(a, Slice):
+                    sides.append((a.base, a.off, a.ln))
         if len(sides) != 2 or {sides[0][0], sides[1][0]} != {name_base, src_base}:
             continue
         n += 1
@@ -265,6 +284,47 @@ def window_rule(ctx, facts, cfg):
         ctx.violation(rid, '<floor>', 'comparisons', 'no case-insensitive comparison between the name and the source found in replace_raw', kind='below-floor')
 
 
+def predicate_rule(ctx, facts, cfg):
+    """C07.g: which bytes count as equal when a name is compared with the source.  Every comparison of replace_raw is either the standard
+    slice / byte eq_ignore_ascii_case, or a closure whose result, evaluated for all 65 536 byte pairs (E3), is ASCII case-insensitive
+    equality."""
+    rid = 'C07.g'
+    from rules import bytecmp
+    f = facts.fn(RR)
+    if f is None:
+        ctx.missing(rid, RR)
+        return
+    n = 0
+    std = 0
+    for bi, b in F.blocks(f):
+        t = b['term']
+        if t['k'] == 'call' and (F.call_path(t) or '').endswith('eq_ignore_ascii_case'):
+            std += 1
+    closures = sorted(k for k in facts.closures_of(f) if k in facts.fns)
+    for ck in closures:
+        g = facts.fns[ck]
+        if g['locals'][0].get('k') != 'bool':
+            continue
+        table, why = bytecmp.closure_table(facts, RR, ck, 1, 3)
+        if table is None:
+            if 'does not capture both' in (why or ''):
+                continue
+            ctx.violation(rid, ck, 'undecided', 'the byte comparison in %s could not be evaluated: %s' % (ck, why), kind='undecided', site=g['at'], config=cfg)
+            n += 1
+            continue
+        n += 1
+        bad = bytecmp.compare_with_spec(table)
+        ctx.instance(rid, 'replace_raw: comparison closure at %s: equal <=> lower(c1) == lower(c2) for all 65536 byte pairs (%d disagree)' % (g['at'], len(bad)), ok=not bad, site=g['at'])
+        if bad:
+            c1, c2, got = bad[0]
+            ctx.violation(rid, RR, 'byte-predicate', 'replace_raw compares bytes wrongly for %d of 65536 pairs, e.g. 0x%02x vs 0x%02x is treated as %s: names that are not equal to the source up to ASCII case are rewritten '
+                          '(or matching names are not)' % (len(bad), c1, c2, 'equal' if got is False else 'different'), site=g['at'], config=cfg)
+    if n + std < 1:
+        ctx.violation(rid, RR, 'no-comparison', 'replace_raw contains neither a standard eq_ignore_ascii_case call nor a comparison closure over the name and the source', kind='undecided', site=f['at'], config=cfg)
+    elif n == 0:
+        ctx.instance(rid, 'replace_raw compares with the standard eq_ignore_ascii_case (%d call site(s))' % std, ok=True, site=f['at'])
+
+
 def default_arm_rule(ctx, facts, cfg):
     """the default arm copies exactly rdlen bytes starting behind the 10-byte header"""
     rid = 'C07.b'
@@ -302,4 +362,5 @@ def run(ctx):
         decision_rule(ctx, facts, cfg)
         boundary_rule(ctx, facts, cfg)
         window_rule(ctx, facts, cfg)
+        predicate_rule(ctx, facts, cfg)
     ctx.trust('analysis/interp.py contracts; helpers above the size threshold are havocked for the accounting (only facts local to rename_response_section are used)')
